@@ -23,7 +23,7 @@ var c04Patterns = []string{"single", "twice", "concurrent3", "race-client", "cle
 func init() {
 	Register(&Prop{ID: "C04",
 		Meta: Meta{Stages: 2, Level: "fault_enumeration",
-			Rule:       "matrix: plugin shutdown behaviour {exits at once; cleanup of 0/100/500/1500ms then exit writing a marker file; ignores the request; frozen by SIGSTOP; already crashed; busy in a call; never connected; failed handshake} x protocol {net/rpc, gRPC, gRPC+mux} x launch {command, custom runner, reattach} x call pattern {Kill; Kill twice; 3 concurrent Kill; Kill racing Client(); CleanupClients over 3 managed clients in mixed states; for reattach cells also: the launching host and the reattached host, both connected, Kill 0/50/300 ms apart}, plus a SECOND Kill / CleanupClients issued exactly while the first Kill is at statement S, for every go-plugin statement the first Kill passes (profiled in stage 0; plugin exits at once / after 100 or 500 ms of cleanup / never), plus Kill / CleanupClients issued at 7 offsets while another goroutine's Start still waits for the handshake of a plugin that stays silent, writes a bad line late, exits late or serves late, each cell run fault-free and (seeded part) with schedule noise in Client.Kill/Close paths and socket latency; oracle: Kill returns within 60s simulated (+ injected delay), afterwards the process has exited and was reaped and Exited() is true, a plugin that exits <=500ms after the request received no SIGKILL and its cleanup marker exists, one that never exits received SIGKILL, no panic",
+			Rule:       "matrix: plugin shutdown behaviour {exits at once; cleanup of 0/100/500/1500ms then exit writing a marker file; ignores the request; frozen by SIGSTOP; already crashed; busy in a call; never connected; failed handshake} x protocol {net/rpc, gRPC, gRPC+mux} x launch {command, custom runner, reattach} x call pattern {Kill; Kill twice; 3 concurrent Kill; Kill racing Client(); CleanupClients over 3 managed clients in mixed states; CleanupClients over 4 running managed clients while two goroutines keep creating further managed clients; for reattach cells also: the launching host and the reattached host, both connected, Kill 0/50/300 ms apart}, plus a SECOND Kill / CleanupClients issued exactly while the first Kill is at statement S, for every go-plugin statement the first Kill passes (profiled in stage 0; plugin exits at once / after 100 or 500 ms of cleanup / never), plus Kill / CleanupClients issued at 7 offsets while another goroutine's Start still waits for the handshake of a plugin that stays silent, writes a bad line late, exits late or serves late, each cell run fault-free and (seeded part) with schedule noise in Client.Kill/Close paths and socket latency; oracle: Kill returns within 60s simulated (+ injected delay), afterwards the process has exited and was reaped and Exited() is true, a plugin that exits <=500ms after the request received no SIGKILL and its cleanup marker exists, one that never exits received SIGKILL, no panic",
 			Exhaustive: "the behaviour x protocol x launch x call-pattern matrix (valid cells)"},
 		Plan: func(tier string, seed uint64, stage int, prev []*h.Result) []*k.Spec {
 			if stage == 1 && tier != "selftest" {
@@ -98,6 +98,20 @@ func init() {
 					}
 					s := sp("C04", fmt.Sprintf("preempt-kill-profile/%s/%s", confLabel(conf), beh), seed, cp(conf, "launch", "cmd", "beh", beh, "pat", "preempt-kill"))
 					s.Profile = true
+					out = append(out, s)
+				}
+			}
+			// CleanupClients while other goroutines keep creating managed clients
+			for _, conf := range c03Confs[:2] {
+				nv := 12
+				if tier == "thorough" {
+					nv = 400
+				}
+				for v := 0; v < nv; v++ {
+					s := sp("C04", fmt.Sprintf("cleanup-racing-newclient/%s/%d", confLabel(conf), v), seed+uint64(v)*7919, cp(conf, "launch", "cmd", "beh", "prompt", "pat", "cleanup-racing-newclient"))
+					s.HotPermille, s.DelayClass = 0, "tiny"
+					s.Focus = "client.go:CleanupClients"
+					s.Wake = []int{0, 500, 1000}[v%3]
 					out = append(out, s)
 				}
 			}
@@ -242,7 +256,7 @@ func runC04(r *h.Run) {
 		if launch == "reattach" {
 			c.Launch = "cmd"
 		}
-		c.Managed = pat == "cleanup-clients" && launch != "reattach"
+		c.Managed = (pat == "cleanup-clients" || pat == "cleanup-racing-newclient") && launch != "reattach"
 		p := &c04Plugin{conf: c, beh: beh, name: c.Name, marker: "/tmp/marker-" + c.Name}
 		cleanup := time.Duration(-1)
 		if len(beh) > 8 && beh[:8] == "cleanup:" {
@@ -279,6 +293,8 @@ func runC04(r *h.Run) {
 	var ps []*c04Plugin
 	if pat == "cleanup-clients" {
 		ps = append(ps, mk(0, beh), mk(1, "prompt"), mk(2, "ignore"))
+	} else if pat == "cleanup-racing-newclient" {
+		ps = append(ps, mk(0, "prompt"), mk(1, "prompt"), mk(2, "prompt"), mk(3, "prompt"))
 	} else {
 		ps = append(ps, mk(0, beh))
 	}
@@ -435,6 +451,34 @@ func runC04(r *h.Run) {
 		outs = append(outs, o)
 		mu.Unlock()
 		wg.Wait()
+	case "cleanup-racing-newclient":
+		// other goroutines create (and never start) managed clients while the
+		// running ones are cleaned up: every client that was running when
+		// CleanupClients was called must be gone when it returns
+		stopSpin := make(chan struct{})
+		var swg sync.WaitGroup
+		for g := 0; g < 2; g++ {
+			swg.Add(1)
+			go k.Trap(func() {
+				defer swg.Done()
+				for i := 0; i < 40; i++ {
+					select {
+					case <-stopSpin:
+						return
+					default:
+					}
+					cc := base
+					cc.Name = fmt.Sprintf("never-started-%d", i)
+					cc.Path = "/bin/never-started"
+					cc.Managed = true
+					r.NewClient(cc)
+					time.Sleep(time.Duration(w.Range("spin/gap", 3)) * 10 * time.Microsecond)
+				}
+			})
+		}
+		outs = append(outs, r.Do("CleanupClients", B+60*time.Second, func() (any, error) { plugin.CleanupClients(); return nil, nil }))
+		close(stopSpin)
+		swg.Wait()
 	case "cleanup-clients":
 		outs = append(outs, r.Do("CleanupClients", B+60*time.Second, func() (any, error) { plugin.CleanupClients(); return nil, nil }))
 	case "preempt-kill":
